@@ -1,6 +1,5 @@
 package spnego
 
-
 // derLen reads a DER definite length at off; returns (length, octets used) or (-1, 0)
 func derLen(b []byte, off int) (int, int) {
 	if off >= len(b) {
